@@ -289,18 +289,26 @@ class SympyCondition(Condition):
         if missing:
             raise ValueError(f'Measurement keys {missing} missing when testing classical control')
 
+        # Indexed symbols (`a[0]`) stand for digits and plain symbols (`a`) for the integer value. The
+        # two can appear together for one key, so the digits are substituted first and separately.
+        digits: dict[sympy.Basic, Any] = {}
+        for symbol in self.expr.free_symbols:
+            if isinstance(symbol, sympy.Indexed):
+                name = symbol.base.name
+                key = measurement_key.MeasurementKey.parse_serialized(name)
+                digits[symbol.base.label] = tuple(classical_data.get_digits(key))
+        indexed = {
+            symbol: symbol.subs(digits)
+            for symbol in self.expr.free_symbols
+            if isinstance(symbol, sympy.Indexed)
+        }
         replacements: dict[str, Any] = {}
         for symbol in self.expr.free_symbols:
             if isinstance(symbol, sympy.Symbol):
                 name = symbol.name
                 key = measurement_key.MeasurementKey.parse_serialized(name)
                 replacements[str(key)] = classical_data.get_int(key)
-        for symbol in self.expr.free_symbols:
-            if isinstance(symbol, sympy.Indexed):
-                name = symbol.base.name
-                key = measurement_key.MeasurementKey.parse_serialized(name)
-                replacements[str(key)] = tuple(classical_data.get_digits(key))
-        value = self.expr.subs(replacements)
+        value = self.expr.subs(indexed).subs(replacements)
         return bool(value)
 
     def _json_dict_(self) -> dict[str, Any]:
